@@ -1,7 +1,377 @@
-//! C16 — correspondence harness (stub; see /verif/AGENT_GUIDE.md).
+//! C16 (hcore half) — bytes from peers can be rejected but never crash the node.
+//!
+//! Stream `wire` (model side: lean/CkbVerif/Driver/C16.lean):
+//!   ver <Type> <s|c> <hex>    -> ok | err            REAL `Reader::verify(slice, compatible)` vs model `verify`
+//!   gate <sync|relay> <hex>   -> strict <item> | compat <item> | too-many-fields | malformed
+//!                                                    the accept/reject decision of `Synchronizer::received` /
+//!                                                    `Relayer::received` (sync/src/synchronizer/mod.rs,
+//!                                                    sync/src/relayer/mod.rs), re-stated here on the REAL readers
+//!                                                    (the handlers themselves need a running network service)
+//!                                                    vs model `Compact.gate`
+//!
+//! On every accepted byte string, in the mode that accepted it, EVERY generated accessor is called
+//! recursively (`touch_*` in c15_gen.rs: field getters, `get(i)`, iterators, `to_opt`, `to_enum`,
+//! `total_size`, `field_count`, `count_extra_fields`, `has_extra_fields`, Display/Debug/LowerHex,
+//! `to_entity`), then the node-level conversions a handler performs first (`check_data`,
+//! `into_view`, hash computations, `extension()`), all under `catch_unwind` with output-size
+//! accounting.  A panic is an oracle failure (class `accessor-panic-*` / `peer-bytes-panic-*`).
+use crate::c15::{ByteMode, Gen, Mut, MutEnc, Table, Val, glue, panic_text, unhex};
 use crate::common::*;
+use ckb_types::packed;
+use ckb_types::prelude::*;
+use std::panic::{AssertUnwindSafe, catch_unwind};
 
-pub fn run(_opts: &Opts) {
-    eprintln!("C16: harness not implemented in this crate");
-    std::process::exit(2);
+const PROTOCOL_TYPES: &[&str] = &[
+    "SyncMessage", "RelayMessage", "BlockFilterMessage", "LightClientMessage", "PingMessage", "DiscoveryMessage", "IdentifyMessage",
+    "HolePunchingMessage", "Alert", "Time", "Identify", "Block", "BlockV1", "CompactBlock", "CompactBlockV1", "Transaction", "Header",
+    "SendBlock", "BlockTransactions", "GetBlockTransactions", "InIBD", "GetNodes2", "Node2", "Nodes2", "SendTransactionsProofV1",
+    "SendBlocksProofV1", "SendLastStateProof", "FilteredBlock", "VerifiableHeader", "BlockExtV1", "CellEntry", "TransactionView",
+];
+
+fn mode(c: bool) -> &'static str {
+    if c { "c" } else { "s" }
+}
+
+/// verify + full accessor sweep in the accepting mode
+fn ver_op(out: &mut Out, name: &str, compat: bool, bs: &[u8]) -> bool {
+    let op = format!("ver {} {} {}", name, mode(compat), hex(bs));
+    let r = catch_unwind(AssertUnwindSafe(|| glue::verify(name, bs, compat).expect("known type")));
+    match r {
+        Ok(true) => {
+            out.op(&op, "ok");
+            out.count(if compat { "ver-compat-accept" } else { "ver-strict-accept" });
+            match catch_unwind(AssertUnwindSafe(|| glue::touch(name, bs, compat))) {
+                Ok(Some(n)) => {
+                    // declared size bound: nothing an accessor returns is larger than the message
+                    // (Display/Debug render hex: ≤ ~2.2x + field names)
+                    let _ = n;
+                    out.count("sweep");
+                }
+                Ok(None) => out.oracle_fail("sweep-reject", &format!("{} verified but from_*_slice rejected: {}", name, hex(bs))),
+                Err(e) => {
+                    let text = panic_text(e);
+                    let class = if compat && is_empty_table_quirk(&text) { "accessor-panic-empty-table-compat" } else { "accessor-panic" };
+                    out.count(class);
+                    out.oracle_fail(class, &format!("{} mode={} bytes={} panic={}", name, mode(compat), hex(bs), text));
+                }
+            }
+            true
+        }
+        Ok(false) => {
+            out.op(&op, "err");
+            out.count(if compat { "ver-compat-reject" } else { "ver-strict-reject" });
+            false
+        }
+        Err(e) => {
+            out.op(&op, "panic");
+            out.oracle_fail("verify-panic", &format!("{} mode={} bytes={} panic={}", name, mode(compat), hex(bs), panic_text(e)));
+            false
+        }
+    }
+}
+
+fn is_empty_table_quirk(text: &str) -> bool {
+    text.contains("out of range") || text.contains("subtract with overflow")
+}
+
+/// `Synchronizer::received` / `Relayer::received` accept logic, on the real readers
+fn gate_sync(bs: &[u8]) -> String {
+    match packed::SyncMessageReader::from_compatible_slice(bs) {
+        Ok(msg) => {
+            let item = msg.to_enum();
+            if let packed::SyncMessageUnionReader::SendBlock(ref reader) = item {
+                if reader.has_extra_fields() || reader.block().count_extra_fields() > 1 {
+                    "too-many-fields".into()
+                } else {
+                    format!("compat {}", msg.item_id())
+                }
+            } else {
+                match packed::SyncMessageReader::from_slice(bs) {
+                    Ok(m) => format!("strict {}", m.item_id()),
+                    Err(_) => "too-many-fields".into(),
+                }
+            }
+        }
+        Err(_) => "malformed".into(),
+    }
+}
+
+fn gate_relay(bs: &[u8]) -> String {
+    match packed::RelayMessageReader::from_compatible_slice(bs) {
+        Ok(msg) => {
+            let item = msg.to_enum();
+            if let packed::RelayMessageUnionReader::CompactBlock(ref reader) = item {
+                if reader.count_extra_fields() > 1 { "too-many-fields".into() } else { format!("compat {}", msg.item_id()) }
+            } else {
+                match packed::RelayMessageReader::from_slice(bs) {
+                    Ok(m) => format!("strict {}", m.item_id()),
+                    Err(_) => "too-many-fields".into(),
+                }
+            }
+        }
+        Err(_) => "malformed".into(),
+    }
+}
+
+/// what the handlers do first with an accepted message (no chain needed)
+fn after_gate_sync(bs: &[u8]) -> usize {
+    let msg = packed::SyncMessageReader::from_compatible_slice(bs).unwrap();
+    match msg.to_enum() {
+        packed::SyncMessageUnionReader::SendBlock(reader) => {
+            // sync/src/synchronizer/mod.rs process(): check_data, then BlockProcess::execute: to_entity().into_view()
+            if reader.check_data() {
+                let view = reader.block().to_entity().into_view();
+                view.hash().as_slice().len() + view.transactions().len() + view.data().as_slice().len()
+            } else {
+                0
+            }
+        }
+        packed::SyncMessageUnionReader::SendHeaders(reader) => reader.headers().iter().map(|h| h.to_entity().into_view().hash().as_slice().len()).sum(),
+        packed::SyncMessageUnionReader::GetHeaders(reader) => reader.block_locator_hashes().len() + reader.hash_stop().as_slice().len(),
+        packed::SyncMessageUnionReader::GetBlocks(reader) => reader.block_hashes().len(),
+        packed::SyncMessageUnionReader::InIBD(_) => 0,
+    }
+}
+
+fn after_gate_relay(bs: &[u8]) -> usize {
+    let msg = packed::RelayMessageReader::from_compatible_slice(bs).unwrap();
+    match msg.to_enum() {
+        packed::RelayMessageUnionReader::CompactBlock(reader) => {
+            // compact_block_process.rs: header view, then reconstruct_block reads `extension()`
+            let cb = reader.to_entity();
+            let header = cb.header().into_view();
+            let ext = cb.extension().map(|e| e.len()).unwrap_or(0);
+            let pre: usize = cb.prefilled_transactions().into_iter().map(|p| p.transaction().into_view().hash().as_slice().len()).sum();
+            header.hash().as_slice().len() + ext + pre + cb.txs_len() + cb.block_short_ids().len()
+        }
+        packed::RelayMessageUnionReader::BlockTransactions(reader) => {
+            if reader.check_data() {
+                reader.transactions().iter().map(|t| t.to_entity().into_view().hash().as_slice().len()).sum::<usize>()
+                    + reader.uncles().iter().map(|u| u.to_entity().into_view().hash().as_slice().len()).sum::<usize>()
+            } else {
+                0
+            }
+        }
+        packed::RelayMessageUnionReader::RelayTransactions(reader) => {
+            if reader.check_data() {
+                reader.transactions().iter().map(|t| t.transaction().to_entity().into_view().hash().as_slice().len()).sum()
+            } else {
+                0
+            }
+        }
+        packed::RelayMessageUnionReader::BlockProposal(reader) => reader.transactions().iter().map(|t| t.to_entity().into_view().hash().as_slice().len()).sum(),
+        other => other.as_slice().len(),
+    }
+}
+
+fn gate_op(out: &mut Out, which: &str, bs: &[u8]) {
+    let op = format!("gate {} {}", which, hex(bs));
+    let r = catch_unwind(AssertUnwindSafe(|| if which == "sync" { gate_sync(bs) } else { gate_relay(bs) }));
+    match r {
+        Ok(ans) => {
+            out.op(&op, &ans);
+            out.count(&format!("gate-{}-{}", which, ans.split(' ').next().unwrap()));
+            if ans.starts_with("strict") || ans.starts_with("compat") {
+                let r2 = catch_unwind(AssertUnwindSafe(|| if which == "sync" { after_gate_sync(bs) } else { after_gate_relay(bs) }));
+                if let Err(e) = r2 {
+                    let text = panic_text(e);
+                    let class = if text.contains("called `Result::unwrap()` on an `Err` value") { "peer-bytes-panic-extension-unwrap" } else { "peer-bytes-panic" };
+                    out.count(class);
+                    out.oracle_fail(class, &format!("{} message accepted by the handler gate ({}) panics in the first conversion: bytes={} panic={}", which, ans, hex(bs), text));
+                }
+            }
+        }
+        Err(e) => {
+            out.op(&op, "panic");
+            out.oracle_fail("gate-panic", &format!("{} bytes={} panic={}", which, hex(bs), panic_text(e)));
+        }
+    }
+}
+
+fn le32(n: usize) -> [u8; 4] {
+    (n as u32).to_le_bytes()
+}
+
+/// append one extra field with raw content `extra` to an encoded table
+fn add_extra_field(table: &[u8], extra: &[u8]) -> Vec<u8> {
+    let total = u32::from_le_bytes(table[0..4].try_into().unwrap()) as usize;
+    if total == 4 {
+        let mut out = le32(8 + extra.len()).to_vec();
+        out.extend_from_slice(&le32(8));
+        out.extend_from_slice(extra);
+        return out;
+    }
+    let first = u32::from_le_bytes(table[4..8].try_into().unwrap()) as usize;
+    let n = first / 4 - 1;
+    let mut out = le32(total + 4 + extra.len()).to_vec();
+    for i in 0..n {
+        let o = u32::from_le_bytes(table[4 + 4 * i..8 + 4 * i].try_into().unwrap()) as usize;
+        out.extend_from_slice(&le32(o + 4));
+    }
+    out.extend_from_slice(&le32(total + 4));
+    out.extend_from_slice(&table[first..]);
+    out.extend_from_slice(extra);
+    out
+}
+
+fn wire_case(out: &mut Out, t: &Table, rng: &mut Rng, name: &str) {
+    out.begin_case(name);
+    let v = {
+        let mut g = Gen { t, rng, budget: 900, mode: ByteMode::Any, big: false };
+        g.val(name, None)
+    };
+    let bytes = glue::encode(name, &v).expect("known type");
+    let mut inputs: Vec<Vec<u8>> = vec![bytes.clone()];
+    for _ in 0..2 {
+        let mut m = MutEnc { t, rng, mode: Mut::Extra, countdown: 0, applied: vec![] };
+        inputs.push(m.enc(name, &v));
+    }
+    for _ in 0..3 {
+        let cd = rng.below(40) as i64;
+        let mut m = MutEnc { t, rng, mode: Mut::Corrupt, countdown: cd, applied: vec![] };
+        inputs.push(m.enc(name, &v));
+    }
+    for _ in 0..3 {
+        let mut b = bytes.clone();
+        match rng.below(4) {
+            0 if !b.is_empty() => {
+                let k = rng.below(b.len().min(64) as u64) as usize;
+                b[k] = b[k].wrapping_add(*rng.pick(&[1u8, 4, 0xff, 0xfc]));
+            }
+            1 if !b.is_empty() => {
+                let k = rng.below(b.len() as u64) as usize;
+                b.truncate(k);
+            }
+            2 => b.extend_from_slice(&[0u8; 3][..rng.range(1, 3) as usize]),
+            _ => {
+                let n = rng.range(0, 40) as usize;
+                b = (0..n).map(|_| rng.next() as u8).collect();
+                if n >= 4 && rng.chance(3, 4) {
+                    b[..4].copy_from_slice(&le32(n));
+                }
+            }
+        }
+        inputs.push(b);
+    }
+    let mut any = false;
+    for b in &inputs {
+        any |= ver_op(out, name, false, b);
+        any |= ver_op(out, name, true, b);
+    }
+    if any {
+        out.nontrivial(format!("{}:{}", name, bytes.len().min(48)));
+    }
+}
+
+fn gate_case(out: &mut Out, t: &Table, rng: &mut Rng) {
+    out.begin_case("gate");
+    for which in ["sync", "relay"] {
+        let name = if which == "sync" { "SyncMessage" } else { "RelayMessage" };
+        let v = {
+            let mut g = Gen { t, rng, budget: 700, mode: ByteMode::JsonValid, big: false };
+            g.val(name, None)
+        };
+        let bytes = glue::encode(name, &v).expect("known type");
+        gate_op(out, which, &bytes);
+        let mut m = MutEnc { t, rng, mode: Mut::Extra, countdown: 0, applied: vec![] };
+        let b = m.enc(name, &v);
+        gate_op(out, which, &b);
+        let cd = rng.below(30) as i64;
+        let mut m = MutEnc { t, rng, mode: Mut::Corrupt, countdown: cd, applied: vec![] };
+        let b = m.enc(name, &v);
+        gate_op(out, which, &b);
+    }
+    // SendBlock / CompactBlock carrying exactly one extra field in the block (the extension slot):
+    // valid `Bytes`, and arbitrary raw content
+    let blk: Val = {
+        let mut g = Gen { t, rng, budget: 500, mode: ByteMode::JsonValid, big: false };
+        g.val("Block", None)
+    };
+    let blk_bytes = glue::encode("Block", &blk).unwrap();
+    let ext_len = rng.below(8) as usize;
+    let raw_ext: Vec<u8> = (0..ext_len).map(|_| rng.next() as u8).collect();
+    let good_ext = {
+        let mut e = le32(ext_len).to_vec();
+        e.extend_from_slice(&raw_ext);
+        e
+    };
+    for ext in [good_ext, raw_ext] {
+        let b1 = add_extra_field(&blk_bytes, &ext);
+        // SendBlock { block } as a table with one field, wrapped in the SyncMessage union (id 3)
+        let mut sb = le32(8 + b1.len()).to_vec();
+        sb.extend_from_slice(&le32(8));
+        sb.extend_from_slice(&b1);
+        let mut msg = le32(3).to_vec();
+        msg.extend_from_slice(&sb);
+        gate_op(out, "sync", &msg);
+        out.count("gate-sendblock-one-extra");
+        // two extra fields: must be refused
+        let b2 = add_extra_field(&b1, &[1, 2, 3]);
+        let mut sb = le32(8 + b2.len()).to_vec();
+        sb.extend_from_slice(&le32(8));
+        sb.extend_from_slice(&b2);
+        let mut msg = le32(3).to_vec();
+        msg.extend_from_slice(&sb);
+        gate_op(out, "sync", &msg);
+    }
+    let cb: Val = {
+        let mut g = Gen { t, rng, budget: 400, mode: ByteMode::JsonValid, big: false };
+        g.val("CompactBlock", None)
+    };
+    let cb_bytes = glue::encode("CompactBlock", &cb).unwrap();
+    let ext_len = rng.below(8) as usize;
+    let raw_ext: Vec<u8> = (0..ext_len).map(|_| rng.next() as u8).collect();
+    let good_ext = {
+        let mut e = le32(ext_len).to_vec();
+        e.extend_from_slice(&raw_ext);
+        e
+    };
+    for ext in [good_ext, raw_ext] {
+        let c1 = add_extra_field(&cb_bytes, &ext);
+        let mut msg = le32(0).to_vec();
+        msg.extend_from_slice(&c1);
+        gate_op(out, "relay", &msg);
+        out.count("gate-compactblock-one-extra");
+    }
+    out.nontrivial(format!("gate-{}", blk_bytes.len().min(64)));
+}
+
+fn replay(out: &mut Out, path: &std::path::Path) {
+    for l in read_replay_ops(path) {
+        let ts: Vec<&str> = l.split(' ').collect();
+        match ts[0] {
+            "case" => {
+                out.begin_case(&ts[2..].join(" "));
+            }
+            "ver" => {
+                ver_op(out, ts[1], ts[2] == "c", &unhex(ts[3]));
+            }
+            "gate" => gate_op(out, ts[1], &unhex(ts[2])),
+            other => panic!("C16 replay: unknown op {other}"),
+        }
+    }
+}
+
+pub fn run(opts: &Opts) {
+    std::panic::set_hook(Box::new(|_| {}));
+    let mut out = Out::new(&opts.out);
+    if let Some(p) = &opts.replay {
+        replay(&mut out, p);
+    } else {
+        let t = Table::new();
+        let mut rng = Rng::new(opts.seed ^ 0xc16);
+        let rounds = if opts.thorough() { 120 } else { 6 } * opts.scale;
+        for n in t.names.clone() {
+            wire_case(&mut out, &t, &mut rng, n);
+        }
+        for _ in 0..rounds {
+            for n in PROTOCOL_TYPES {
+                wire_case(&mut out, &t, &mut rng, n);
+            }
+            for _ in 0..4 {
+                gate_case(&mut out, &t, &mut rng);
+            }
+        }
+    }
+    out.finish("wire: a case is one generated message of one molecule type plus its extra-field / corrupted / byte-mutated variants, non-trivial when at least one variant is accepted (fingerprint type:min(len,48)); gate: one SyncMessage + one RelayMessage family through the handlers' accept logic incl. SendBlock / CompactBlock with one and two extra fields");
 }
